@@ -308,9 +308,8 @@ func memberConstOf(v ssa.Value, j int) (truth, known bool) {
 				continue
 			}
 			if tu, isU := stripConv(st.Val).(*ssa.UnOp); isU && tu.Op == token.MUL {
-				if tal, isAl := tu.X.(*ssa.Alloc); isAl {
+				if _, isAl := tu.X.(*ssa.Alloc); isAl {
 					return memberConstOf(tu, j)
-					_ = tal
 				}
 			}
 			return false, false
